@@ -5,7 +5,7 @@ hostile string alphabet is injected into every value flow that reaches the write
 
 HOSTILE_ATOMS = [
     "&", "<", ">", '"', "'", "--", "-->", "---", "--->", "-----", "]]>", "<!--", "<![CDATA[", "&amp;", "&#38;", "&lt;", "&quot;",
-    "\t", "\n", "\r\n", " ", "  ", "\U0001F600", "é", "​", " ", "x" * 40, "a-b", "%", ";", ":",
+    "\t", "\n", "\r\n", "\r", " ", "  ", "\U0001F600", "é", "​", " ", "x" * 40, "a-b", "%", ";", ":",
     "\\", "\\n", "/", "=", "{", "}", "(", ")", "é", "日本", "`", "|", "~", "@", "^", "?>", "<?", "-",
 ]
 EVAL_ATOMS = ["$", "${", "{{", "}}", "$v", "${v}", "{{1+1}}", "#a", "#zz"]
@@ -35,7 +35,11 @@ def attr_escape(rng, s, plain=False):
         elif ch == "'" and not plain and rng.random() < 0.3:
             out.append("&apos;")
         elif ch in "\t\n\r":
-            out.append(ch)   # literal (char refs in attributes are a separate, tagged feature)
+            # literal, or as a character reference (which is how a CR / LF / TAB survives attribute-value and line-end normalisation)
+            if plain or rng.random() < 0.6:
+                out.append(ch)
+            else:
+                out.append(rng.choice(["&#%d;", "&#x%X;", "&#x%x;"]) % ord(ch))
         else:
             out.append(ch)
     return "".join(out)
